@@ -56,6 +56,7 @@ def execute(sc):
                             trace_files=[FILES['asyncio']] if sc.get('trace', True) else (),
                             max_steps=sc.get('max_steps', 40000)))
     ctl.interesting = _INTERESTING
+    ctl.stalls = {k: v for k, v in sc.get('stalls', {}).items()}     # thread -> [nth aiuti line, virtual seconds]
     asyncio.set_event_loop_policy(rt.VPolicy())
     keep = []
     runners = {}
